@@ -377,7 +377,80 @@ func runCase(ctx context.Context, out *vc.Out, r *vc.Rng, caseID int, dir string
 		} else if total != 0 {
 			out.Oracle(line, fmt.Sprintf("[import-not-atomic] case %d: failed import left %d documents behind", caseID, total))
 		}
+		// a file cut short (an interrupted copy) between two tokens — after a complete document, after the comma that
+		// follows it, after the closing bracket of a collection — is not the export: nothing of it may be imported
+		cuts := truncationPoints(string(raw))
+		for ci, cut := range cuts {
+			if ci >= 4 {
+				break
+			}
+			cutFile := filepath.Join(dir, fmt.Sprintf("cut%d_%d.json", caseID, ci))
+			must(os.WriteFile(cutFile, raw[:cut.at], 0o644))
+			dst3 := newNode(ctx)
+			err := dst3.DB.BasicImport(ctx, cutFile)
+			d3, _ := dump(ctx, dst3, func(id string) string { return id })
+			dst3.Close()
+			_ = os.Remove(cutFile)
+			left := 0
+			for _, c := range d3 {
+				left += len(c)
+			}
+			out.Count("truncated-import:" + cut.what)
+			if err == nil || left != 0 {
+				out.Oracle(line, fmt.Sprintf("[import-truncated-%s] case %d: import of an export cut short %s: error=%v, documents left in the database=%d", cut.tag, caseID, cut.what, err, left))
+			}
+		}
 	}
+}
+
+type cutPoint struct {
+	at        int
+	what, tag string
+}
+
+// truncationPoints finds places between two JSON tokens of an export file {"Col":[{..},{..}],"Col2":[..]} at which
+// the text so far is a proper prefix: after a top-level document of a collection, after the comma following it, after
+// the closing bracket of a collection that is not the last
+func truncationPoints(s string) []cutPoint {
+	var out []cutPoint
+	depth := 0
+	inStr, esc := false, false
+	for i := 0; i < len(s); i++ {
+		c := s[i]
+		if inStr {
+			switch {
+			case esc:
+				esc = false
+			case c == '\\':
+				esc = true
+			case c == '"':
+				inStr = false
+			}
+			continue
+		}
+		switch c {
+		case '"':
+			inStr = true
+		case '{', '[':
+			depth++
+		case '}', ']':
+			depth--
+			if c == '}' && depth == 2 && i+1 < len(s) {
+				out = append(out, cutPoint{i + 1, "after a complete document", "document"})
+				if s[i+1] == ',' {
+					out = append(out, cutPoint{i + 2, "after the comma that follows a document", "document"})
+				}
+			}
+			if c == ']' && depth == 1 && i+1 < len(s) && s[i+1] == ',' {
+				out = append(out, cutPoint{i + 1, "after the closing bracket of a collection", "collection"})
+			}
+		}
+	}
+	// spread: first, last and two in between
+	if len(out) > 4 {
+		out = []cutPoint{out[0], out[len(out)/3], out[2*len(out)/3], out[len(out)-1]}
+	}
+	return out
 }
 
 func main() {
